@@ -648,24 +648,45 @@ def _assignments(hooks, p, atom, kids):
 
 def _atom_print_is_name(prog, phi):
     """None when an atomic proposition of phi's class prints as exactly its
-    name on every path; else a description"""
-    from ..printers import _print
+    name on every path; a description when some path positively prints
+    something else (a template with more than the name); Inconclusive when a
+    path is not understood"""
+    from ..printers import FormulaHooks
     ci = phi.ci
     f = prog.method(ci, '__str__')
     if f is None:
         return 'the class has no __str__'
-    try:
-        v = _print(prog, ci, phi.args, f)
-    except Inconclusive as e:
-        return ('its printer has several outcomes (%s)' %
-                str(e).split(':')[-1].strip()[:60])
+    I = Interp(prog, FormulaHooks(prog, check_sorts=False), rule='R-LTL-3')
+    path = I.new_path()
+    res = I.call_function(FRef(f), [New(ci, phi.args)], [], path, f.node)
+    res = [(p, v) for (p, v) in res if not isinstance(v, Raise)]
+    if not res:
+        return 'its printer never returns'
     name = phi.args[0]
-    if v == name or v == App('str', name) or (
-            isinstance(v, App) and v.op == 'fmt' and
-            v.args[1] == Const('{}') and
-            list(v.args[2].items) in ([name], [App('str', name)])):
-        return None
-    return 'it prints as %s' % repr(v)[:60]
+    unknown = None
+    for (p, v) in res:
+        v = I.snapshot_deep(v, p)
+        if v == name or v == App('str', name) or (
+                isinstance(v, App) and v.op == 'fmt' and
+                v.args[1] == Const('{}') and
+                list(v.args[2].items) in ([name], [App('str', name)])):
+            continue
+        # a template that adds literal text around the name
+        if isinstance(v, App) and v.op == 'fmt' and \
+                isinstance(v.args[1], Const) and \
+                isinstance(v.args[1].v, str) and \
+                v.args[1].v.replace('{}', '', 1).replace('%s', '', 1) != '' \
+                and \
+                list(v.args[2].items) in ([name], [App('str', name)]):
+            return 'on some path it prints as %r applied to the name' % (
+                v.args[1].v,)
+        if unknown is None:
+            unknown = v
+    if unknown is not None:
+        raise Inconclusive('R-LTL-3', 'printed form of an atomic proposition '
+                           'not understood: %s' % repr(unknown)[:100],
+                           f.where())
+    return None
 
 
 def _check_atom(hooks, p, atom, kname, phi, neg, kids, al, K, state):
@@ -696,8 +717,19 @@ def _check_atom(hooks, p, atom, kname, phi, neg, kids, al, K, state):
             # what is looked up in the label set: the atom itself (found
             # through its hash / ==) or its name -- a label is a name
             name = phi.args[0] if isinstance(phi, New) and phi.args else None
-            okkey = hooks.feq(key, phi) is True or key == name or \
-                key == App('attr', phi, Const('name'))
+            okkey = key == name or key == App('attr', phi, Const('name'))
+            if not okkey and hooks.feq(key, phi) is True:
+                # the formula object is looked up among the names: == and
+                # hash of a formula are those of its printed form, so the
+                # atom is found exactly when it prints as its name
+                bad = _atom_print_is_name(hooks.prog, phi)
+                if bad:
+                    return ('the atomic proposition itself is looked up in '
+                            'the labels of the state (found through the == / '
+                            'hash of its printed form), and %s: an atom '
+                            'whose printed form is not its name is never '
+                            'found' % (bad,))
+                okkey = True
             if not okkey:
                 printed = isinstance(key, App) and key.op in ('str', 'fmt',
                                                               'repr') and \
@@ -1278,6 +1310,34 @@ def rule_ltl4(prog, P):
     T = Sym('T', ('inst', P.tableau))
     C, CL = Sym('C', ('b', 'list')), Sym('closure', ('b', 'set'))
     res = I.call_function(FRef(f), [T, C, CL], [], path, f.node)
+    # the filter only reads the tableau: its atoms are (sub)sets shared with
+    # the procedure that later filters the answer by membership in them
+    atom_is_set = any(getattr(c, 'name', None) in ('set', 'list', 'dict') or
+                      (hasattr(c, 'attrs') and '__ior__' in c.attrs)
+                      for c in P.atomcls.mro)
+    for (p, v) in res:
+        for e in p.log:
+            tgt = e.target
+            # a variable updated in a loop: the object it named when the
+            # loop was entered (an in-place operator keeps the object)
+            while isinstance(tgt, Sym) and tgt.meta and \
+                    tgt.meta[0] == 'widened':
+                tgt = tgt.meta[1]
+            if e.kind in ('mutate', 'maybe-mutate') and atom_is_set and \
+                    isinstance(tgt, App) and tgt.op == 'item' and \
+                    tgt.args[0] == App('attr', T, Const(P.atoms_field)):
+                r.fail(Finding(
+                    PROP, 'R-LTL-4', I.where(e.node, f.module), f.short(),
+                    'filter-mutates-atom:%s' % e.name,
+                    'the self-fulfilling test applies an in-place operator '
+                    '(%s) to a tableau atom (%s): the atom is a set, so it '
+                    'is modified -- it absorbs the formulas of the other '
+                    'atoms of its component, and the final filter `formula '
+                    'in atom` then answers for the wrong atom' % (
+                        e.name, repr(tgt)[:60]),
+                    expected='the tableau is only read'),
+                    witness=tgt.args[0])
+                break
     U1 = ('U', ('p',), ('q',))
     forms = [('p',), ('q',), U1]
     asubs = []
@@ -1315,8 +1375,10 @@ def rule_ltl4(prog, P):
                             bad = (repr(g), [sorted(a) for a in atoms], Cs,
                                    got, want)
     except NotEvaluable as e:
-        raise Inconclusive('R-LTL-4', 'SCC filter not evaluable: %s' % e,
-                           f.where())
+        e2 = Inconclusive('R-LTL-4', 'SCC filter not evaluable: %s' % e,
+                          f.where())
+        e2.partial = r
+        raise e2
     r.inst(function=f.short(), cases=nm)
     if bad:
         r.fail(Finding(
